@@ -4,6 +4,7 @@ import (
 	"bufio"
 	"bytes"
 	"encoding/binary"
+	"encoding/json"
 	"flag"
 	"fmt"
 	"io"
@@ -182,6 +183,7 @@ func gedit(args []string) error {
 	if *expect >= 0 && int64(n) != *expect {
 		return fmt.Errorf("dump has %d states, TLC reported %d", n, *expect)
 	}
+	rep.Count("marshal_texts_not_as_specified", atomic.LoadInt64(&marshalDrift))
 	rep.Count("serializer_blobs_compared_with_spec_streams", atomic.LoadInt64(&streamChecked))
 	rep.Count("serializer_blobs_not_as_specified", atomic.LoadInt64(&streamDrift))
 	if d, _ := streamDriftFirst.Load().(string); d != "" {
@@ -325,7 +327,12 @@ func replayEdits(rep *run.Report, batch []editCase, prop string, serModes int) {
 			} else if merr != nil {
 				fail("marshal", string(c.text), "error", "Iter.MarshalJSON(root): "+merr.Error())
 			} else if !bytes.Equal(mb, c.text) {
-				fail("marshal", string(c.text), string(mb), "Iter.MarshalJSON(root)")
+				// not the specification's canonical text: judge it by what C10 states
+				if why := marshalDemand(mb, c.docs, avx512); why != "" {
+					fail("marshal", string(c.text), string(mb), "Iter.MarshalJSON(root): "+why)
+				} else {
+					atomic.AddInt64(&marshalDrift, 1)
+				}
 			} else if rootsAreContainers(c.docs) { // Parse only takes objects/arrays at the root
 				pj2, perr := run.Parse(append([]byte{}, mb...), run.Cfg{AVX512: avx512, Copy: true, ND: c.nd}, nil)
 				if perr != nil {
@@ -350,7 +357,11 @@ func replayEdits(rep *run.Report, batch []editCase, prop string, serModes int) {
 					if m.err != nil {
 						fail("marshal", string(want), "error", fmt.Sprintf("%s at %v: %v", m.api, p, m.err))
 					} else if !bytes.Equal(m.out, want) {
-						fail("marshal", string(want), string(m.out), fmt.Sprintf("%s at %v", m.api, p))
+						if why := marshalDemand(m.out, []abs.Value{absAt(c.docs, p)}, avx512); why != "" {
+							fail("marshal", string(want), string(m.out), fmt.Sprintf("%s at %v: %s", m.api, p, why))
+						} else {
+							atomic.AddInt64(&marshalDrift, 1)
+						}
 					}
 				}
 			}
@@ -394,6 +405,54 @@ func replayEdits(rep *run.Report, batch []editCase, prop string, serModes int) {
 	for i := 0; i < len(batch); i += 1 + len(batch)/5 {
 		rep.Sample(map[string]interface{}{"text0": string(batch[i].text0), "copy": batch[i].copy, "history": fmt.Sprint(batch[i].hist), "expect": string(batch[i].text)}, 8)
 	}
+}
+
+var marshalDrift int64
+
+// absAt is the value at path p = [root, member index, ...] of docs.
+func absAt(docs []abs.Value, p []int) abs.Value {
+	v := docs[p[0]-1]
+	for _, i := range p[1:] {
+		if v.K == 'a' {
+			v = v.Arr[i-1]
+		} else {
+			v = v.Obj[i-1].Val
+		}
+	}
+	return v
+}
+
+// marshalDemand judges marshalled text that is NOT the specification's canonical text by what C10 states: every root is
+// valid JSON (encoding/json is the referee), roots are separated by single newlines, the text denotes want (member order,
+// byte-equal strings, numerically equal numbers) and is a fixed point of parse-then-marshal.  "" = fine.
+func marshalDemand(out []byte, want []abs.Value, avx512 bool) string {
+	lines := bytes.Split(out, []byte{'\n'})
+	if len(lines) != len(want) {
+		return fmt.Sprintf("%d lines for %d roots", len(lines), len(want))
+	}
+	for i, ln := range lines {
+		if !json.Valid(ln) {
+			return fmt.Sprintf("root %d is not valid JSON", i)
+		}
+		// read it back with the real parser (scalars wrapped in an array)
+		pj, err := run.Parse(append(append([]byte{'['}, ln...), ']'), run.Cfg{AVX512: avx512, Copy: true}, nil)
+		if err != nil {
+			return fmt.Sprintf("root %d does not parse back: %v", i, err)
+		}
+		got, rerr := read.All[0].F(pj)
+		if rerr != nil || len(got) != 1 || got[0].K != 'a' || len(got[0].Arr) != 1 {
+			return fmt.Sprintf("root %d does not read back: %v", i, rerr)
+		}
+		if merr := abs.MatchNumeric(want[i], got[0].Arr[0]); merr != nil {
+			return fmt.Sprintf("root %d denotes another value: %v", i, merr)
+		}
+		it := pj.Iter()
+		again, aerr := it.MarshalJSON()
+		if aerr != nil || !bytes.Equal(again, append(append([]byte{'['}, ln...), ']')) {
+			return fmt.Sprintf("root %d is not a fixed point: %q", i, again)
+		}
+	}
+	return ""
 }
 
 var streamChecked, streamDrift int64
